@@ -3,6 +3,8 @@ package main
 // Evaluation of contract expressions to symbolic values, in a given program state.
 
 import (
+	"strconv"
+	"regexp"
 	"golang.org/x/tools/go/ssa"
 	"fmt"
 	"go/types"
@@ -22,6 +24,8 @@ type Env struct {
 	// litVars: macro parameters bound to integer literals; typed by the context of each use
 	litVars map[string]*Node
 }
+
+var reByteArr = regexp.MustCompile(`^\[(\d+)\](byte|uint8)$`)
 
 func (e *Env) with(name string, v *Sym) *Env {
 	n := *e
@@ -725,6 +729,9 @@ func (e *Env) call(n *Node, hint *Sym) *Sym {
 		var t types.Type
 		if bt, ok := basicByName[tn]; ok {
 			t = bt
+		} else if m := reByteArr.FindStringSubmatch(tn); m != nil {
+			k, _ := strconv.Atoi(m[1])
+			t = types.NewArray(types.Universe.Lookup("byte").Type(), int64(k))
 		} else {
 			t = e.x.typeByName(tn)
 		}
